@@ -17,6 +17,7 @@ import os
 import random
 import shutil
 import subprocess
+import time
 from concurrent.futures import ThreadPoolExecutor
 from pathlib import Path
 
@@ -28,9 +29,13 @@ from vlib import ToolError, log
 LEVEL = {"C14": "model_checking"}
 SP = vlib.SPEC / "project"
 
+ALL_FEATURES = ["nobabel", "sameName", "pet", "loadable", "mutation", "dupEp", "dupEpWs", "xField", "xEp", "xParse", "xParse2",
+                "xDup", "xLazy", "xType", "xDupSame"]
 TIERS = {
-    "quick": dict(MaxFeat=2, Reps=5, DevReps=2, MaxDev=1, SwapBudget=1, DemoReps=3, MaxShuf=1),
-    "thorough": dict(MaxFeat=3, Reps=6, DevReps=5, MaxDev=1, SwapBudget=2, DemoReps=5, MaxShuf=4),
+    "quick": dict(MaxFeat=2, PairWith=["nobabel", "xField"], FullPermFiles=3, Reps=5, DevReps=1, MaxDev=1, SwapBudget=1,
+                  DemoReps=3, MaxShuf=1),
+    "thorough": dict(MaxFeat=2, PairWith=ALL_FEATURES, FullPermFiles=3, Reps=6, DevReps=3, MaxDev=1, SwapBudget=1,
+                     DemoReps=5, MaxShuf=3),
 }
 ACTIONS = ["NewProcess", "PermuteDir", "ReverseDir", "Shuffle", "PermuteLiterals", "MoveEntrypoints"]
 JOBS = int(os.environ.get("VERIF_JOBS", "4"))
@@ -213,36 +218,69 @@ def signature(p: dict, aspect: str, what: str) -> str:
     return f"C14:{aspect}:{w}:{p.get('opt', 'std')}:" + "|".join(out)
 
 
-def still_fails(chk, runner: Runner, p: dict, envs: list[dict], aspect: str, tag: str):
-    pairs = [(p, dict(e, rep=k + 1)) for e in envs for k in range(MIN_REPS)]
+def detail_key(aspect: str, bad: dict, a: dict, b: dict):
+    """What exactly differs, coarse enough to survive minimisation: used ONLY to keep the minimiser on the same
+    defect (never for a verdict).  diagnostics: the messages (first lines) present in one run and not in the other."""
+    if aspect.startswith("artifact"):
+        return bad.get("what", "").rsplit("/", 1)[-1]
+    if aspect == "diagnostics":
+        da, db = list(a["diags"]), list(b["diags"])
+        for x in list(da):
+            if x in db:
+                da.remove(x)
+                db.remove(x)
+        return tuple(sorted({d.split("\n")[0] for d in da + db}))
+    return ""
+
+
+def fails_batch(chk, runner: Runner, cands: list[tuple[dict, list[dict]]], aspect: str, tag: str, key=None):
+    """Each candidate (project, envs) is compiled in MIN_REPS fresh processes per environment; ONE ObsC14 run judges
+    them all.  -> ([BAD object | None per candidate], records)"""
+    pairs = []
+    for i, (p, envs) in enumerate(cands):
+        q = dict(p, id=f"{p['id']}#{tag}{i}")
+        pairs += [(q, dict(e, rep=k + 1)) for e in envs for k in range(MIN_REPS)]
     recs = runner.run(pairs)
-    bads = [b for b in judge(chk, recs, tag) if b["aspect"] == aspect]
-    return (bads[0], recs) if bads else (None, recs)
+    by_id = {r["id"]: r for r in recs}
+    hit: dict[str, dict] = {}
+    for b in judge(chk, recs, tag):
+        if b["aspect"] == aspect and b["project"] not in hit:
+            b["key"] = detail_key(aspect, b, by_id[b["id"]], by_id[b["against"]])
+            if key is None or b["key"] == key:
+                hit[b["project"]] = b
+    return [hit.get(f"{p['id']}#{tag}{i}") for i, (p, _) in enumerate(cands)], recs
 
 
-def minimise(chk, runner: Runner, p: dict, envs: list[dict], aspect: str):
-    """Greedy one-at-a-time removal of declarations (then of the option) while the same aspect still differs."""
-    cur = json.loads(json.dumps(p))
-    cur["id"] = p["id"] + "#min"
-    step = 0
-    changed = True
-    while changed:
-        changed = False
-        for i in range(len(cur["decls"]) - 1, -1, -1):
-            cand = dict(cur, decls=cur["decls"][:i] + cur["decls"][i + 1:], layout=cur["layout"][:i] + cur["layout"][i + 1:])
-            nfiles = len(dict.fromkeys(cand["layout"]))
-            cenvs = [dict(e, order=list(range(1, nfiles + 1))) if len(e["order"]) != nfiles else e for e in envs]
-            step += 1
-            bad, _ = still_fails(chk, runner, cand, cenvs, aspect, f"min{step}-")
-            if bad:
-                cur, envs, changed = cand, cenvs, True
-                break
-    if cur.get("opt") == "nobabel":
-        cand = dict(cur, opt="std")
-        bad, _ = still_fails(chk, runner, cand, envs, aspect, "minopt-")
-        if bad:
-            cur = cand
-    return cur, envs
+def still_fails(chk, runner: Runner, p: dict, envs: list[dict], aspect: str, tag: str, key=None):
+    res, recs = fails_batch(chk, runner, [(p, envs)], aspect, tag, key)
+    return res[0], recs
+
+
+def _fit(envs: list[dict], decls: list, layout: list) -> list[dict]:
+    n = len(dict.fromkeys(layout))
+    return [dict(e, order=list(range(1, n + 1))) if len(e["order"]) != n else e for e in envs]
+
+
+def minimise(chk, runner: Runner, p: dict, envs: list[dict], aspect: str, key):
+    """Greedy removal of declarations (then of the option) while the same difference is still observed; every round
+    of candidates is judged by one TLC run."""
+    rnd = [0]
+
+    def batch(cands):
+        rnd[0] += 1
+        cs = [(dict(p, decls=[d for d, _ in c], layout=[l for _, l in c]), _fit(envs, c, [l for _, l in c])) for c in cands]
+        res, _ = fails_batch(chk, runner, cs, aspect, f"min{rnd[0]}-", key)
+        return [x is not None for x in res]
+
+    kept = pd.minimise_list(list(zip(p["decls"], p["layout"])), batch)
+    cur = dict(p, id=p["id"] + "#min", decls=[d for d, _ in kept], layout=[l for _, l in kept])
+    envs = _fit(envs, cur["decls"], cur["layout"])
+    # last round: the minimised project itself and, when it sets an option, the same without the option
+    finals = [cur] + ([dict(cur, opt="std")] if cur.get("opt") == "nobabel" else [])
+    res, recs = fails_batch(chk, runner, [(f, envs) for f in finals], aspect, "final-", key)
+    if len(finals) == 2 and res[1] is not None:
+        return finals[1], envs, res[1], recs
+    return cur, envs, res[0], recs
 
 
 def report(chk, runner: Runner, p: dict, bad: dict, recs_by_id: dict):
@@ -265,8 +303,7 @@ def report(chk, runner: Runner, p: dict, bad: dict, recs_by_id: dict):
         chk.drift(f"{p['id']}: difference ({aspect}) between runs {bad['id']} and {bad['against']} did not reproduce "
                   f"in {MIN_REPS} fresh processes per environment")
         return
-    minp, menvs = minimise(chk, runner, p, envs, aspect)
-    final, recs = still_fails(chk, runner, minp, menvs, aspect, "final-")
+    minp, menvs, final, recs = minimise(chk, runner, p, envs, aspect, confirm["key"])
     if not final:          # probabilistic miss on the minimised project: fall back to the confirmed one
         minp, menvs, final = p, envs, confirm
     sig = signature(minp, aspect, final.get("what", ""))
@@ -315,9 +352,13 @@ def run(chk: vlib.Check) -> None:
             projects[d] = {"id": d, "class": "demo", "nfiles": 0}
         pairs = [(projects[r["project"]], r["env"]) for r in runs]
         log(f"[C14] {len(projects)} projects, {len(pairs)} (project, env) states, base={runner.base}")
+        t0 = time.time()
         recs = runner.run(pairs)
+        log(f"[C14] {len(recs)} fresh-process compiles in {time.time() - t0:.0f}s")
         by_id = {r["id"]: r for r in recs}
+        t0 = time.time()
         bads = judge(chk, recs, "obs")
+        log(f"[C14] judged in {time.time() - t0:.0f}s")
         # --- accounting ---------------------------------------------------------------------------
         per: dict[str, list] = {}
         for r in recs:
@@ -357,24 +398,33 @@ def run(chk: vlib.Check) -> None:
         ]
         # --- verdicts -----------------------------------------------------------------------------
         first_bad: dict[tuple, dict] = {}
+        keysets: dict[tuple, set] = {}
         for b in bads:
-            first_bad.setdefault((b["project"], b["aspect"]), b)
-        log(f"[C14] {len(bads)} differing runs in {len({b['project'] for b in bads})} projects")
-        # smallest projects first, so that a defect is reported from its simplest carrier; one report per signature
+            k = (b["project"], b["aspect"])
+            first_bad.setdefault(k, b)
+            dk = detail_key(b["aspect"], b, by_id[b["id"]], by_id[b["against"]])
+            keysets.setdefault(k, set()).update(dk if isinstance(dk, tuple) else [dk])
+        log(f"[C14] {len(bads)} differing runs in {len({b['project'] for b in bads})} projects: "
+            f"{sorted({(b['project'], b['aspect']) for b in bads})}")
+        chk.cov["projects_with_differing_runs"] = sorted({b["project"] for b in bads})
+        # smallest projects first, so that a defect is reported from its simplest carrier.  A project is not minimised
+        # again when everything that differs in it (the differing diagnostic messages / artifact names) was already
+        # reported from projects whose features are a subset of its features.
         order = sorted(first_bad.items(), key=lambda kv: (len(projects[kv[0][0]].get("decls", [])) if projects[kv[0][0]]["class"] != "demo" else 10**6))
         budget = 6 if chk.tier == "quick" else 20
-        explained: set = set()
+        explained: list = []
         for (pid, aspect), b in order:
             p = projects[pid]
             feats = frozenset(p.get("feats", [pid]))
-            if any(e[1] == aspect and e[0] <= feats for e in explained):
-                continue       # a sub-project with the same differing aspect was already minimised and reported
+            covered = set().union(*[ks for (f, a, ks) in explained if a == aspect and f <= feats]) if explained else set()
+            if keysets[(pid, aspect)] <= covered:
+                continue
             if budget == 0:
                 chk.drift(f"unminimised difference ({aspect}) in project {pid} (minimisation budget exhausted)")
                 continue
             budget -= 1
             report(chk, runner, p, b, by_id)
-            explained.add((feats, aspect))
+            explained.append((feats, aspect, keysets[(pid, aspect)]))
     finally:
         runner.close()
 
